@@ -116,6 +116,31 @@ def cqm_attrs(cqm, labels):
     return out
 
 
+SENSE = {'<=': 0, 'Le': 0, '>=': 1, 'Ge': 1, '==': 2, 'Eq': 2}
+
+
+def raw_mexpr(e):
+    idx = clist([cnat(int(x)) for x in e._iindices()])
+    lin = clist([cq(F(x)) for x in e._ilinear()])
+    quad = clist([f"({cnat(int(u))}, {cnat(int(v))}, {cq(F(b))})" for u, v, b in e._iquadratic()])
+    return f"(mexpr_of_raw {idx} {lin} {quad} {cq(F(e.offset))})"
+
+
+def raw_mcqm(cqm, labels):
+    """raw index-level state of a CQM as a Coq Expr.mcqm term"""
+    info = clist(["(Expr.mkI %s %s %s)" % (cqm.vartype(v).name, cq(F(cqm.lower_bound(v))), cq(F(cqm.upper_bound(v))))
+                  for v in cqm.variables])
+    cons = []
+    for l in labels:
+        k = cqm.constraints[l]
+        sv = k.sense.value if hasattr(k.sense, 'value') else str(k.sense)
+        w = k.lhs.weight()
+        pen = {None: 0, 'linear': 1, 'quadratic': 2}[None if k.lhs.penalty() is None else str(k.lhs.penalty())]
+        cons.append("(Expr.mkMC %s %s %s %s %s false)" % (raw_mexpr(k.lhs), cnat(SENSE[sv]), cq(F(k.rhs)),
+                                                        "None" if w == float('inf') else "(Some %s)" % cq(F(w)), cnat(pen)))
+    return "(Expr.mkM %s %s %s)" % (info, raw_mexpr(cqm.objective), clist(cons))
+
+
 def run_case(c):
     kind = c["kind"]
     fixes = [(dec_label(l), float(F(v))) for l, v in c["fixes"]]
@@ -159,6 +184,8 @@ def run_case(c):
         vars_before = list(cqm.variables)
         vinfo_before = {v: (cqm.vartype(v), cqm.lower_bound(v), cqm.upper_bound(v)) for v in cqm.variables}
         snapshot = copy.deepcopy(cqm)
+        raw_before = raw_mcqm(cqm, labels)
+        fixed_idx = clist([cpair(cnat(vars_before.index(l)), cq(F(v))) for l, v in fixes])
         if kind == 'cqm_inplace':
             for f in fixes:
                 cqm.fix_variable(*f)
@@ -180,12 +207,18 @@ def run_case(c):
         for v in new.variables:
             if (new.vartype(v), new.lower_bound(v), new.upper_bound(v)) != vinfo_before[v]:
                 py_fail = f"vartype/bounds of remaining variable {v!r} changed"
+        raw_after = raw_mcqm(new, labels)
         feats["selfloop_fixed"] = any(u == v and u == enc_label(f[0]) for o in before for u, v, _ in o["quad"] for f in fixes)
     T = LabelTable([v[0] for v in c["allvars"]] if "allvars" in c else [])
     pairs = clist([cpair(coq_obs(b, T), coq_obs(a, T)) for b, a in zip(before, after)])
     cf = clist([cpair(cnat(T.idx(l)), cq(F(v))) for l, v in fixes])
     coq = f"(mkCase {cnat(len(T))} {cf} {pairs})"
-    return {"coq": coq, "check_fn": "check", "py_fail": py_fail, "features": feats,
+    fn = "check"
+    if kind.startswith('cqm'):
+        # the same observation plus the two code paths run on the raw index-level state
+        coq = f"(mkCC {coq} {'true' if kind == 'cqm_copy' else 'false'} {fixed_idx} {raw_before} {raw_after})"
+        fn = "ccheck"
+    return {"coq": coq, "check_fn": fn, "py_fail": py_fail, "features": feats,
             "nontrivial": any(o["lin"] or o["quad"] for o in before),
             "observed": {"before": before, "after": after}}
 
